@@ -329,6 +329,27 @@ Definition check_cpub (c : cpub_case) : result :=
 Definition explain_cpub (c : cpub_case) :=
   cpub_run (cc_pipe c) (mqtt_new (cc_req c) (cc_bytes c) (cc_period c)) (cc_pubs c).
 
+(** * gen: object life cycle (Init, then spec updates through Inherit) - observations only, no model *)
+Record gen_case := {
+  gc_subqos : Z;
+  gc_pubs : list (Z * Z * bool * Z);     (* generation, message QoS, delivered to the current generation's subscriber, HTTP status *)
+  gc_expected : nat;                     (* publishes the scenario asked for *)
+  gc_bad : bool
+}.
+
+(** every message posted to the registered route is delivered to the subscriber of the CURRENT generation
+    when its subscription QoS allows it *)
+Definition gen_prop (c : gen_case) : bool :=
+  forallb (fun '(_, q, d, _) => if q <=? gc_subqos c then d else true) (gc_pubs c).
+
+Definition check_gen (c : gen_case) : result :=
+  (negb (gc_bad c) && Nat.eqb (List.length (gc_pubs c)) (gc_expected c) &&
+   forallb (fun '(_, q, d, st) => (st =? 200) && Bool.eqb d (q <=? gc_subqos c)) (gc_pubs c),
+   gen_prop c,
+   match gc_pubs c with [] => 0%N | _ => (1 + N.of_nat (List.length (gc_pubs c)))%N end, 0%N).
+
+Definition explain_gen (c : gen_case) := (gen_prop c, gc_pubs c).
+
 (** * life: connect / subscribe / drop / reconnect / takeover / admin delete histories (C16) *)
 
 Record snap := {
